@@ -16,8 +16,9 @@ PasswordCfb.v (Header::from_reader, Directory::from_slice, has_directory, check_
     biffgen, xlsxgen_c10, biffgen_c10, mergegen), every fixture of /repo/tests (only pass_protected*
     may be Password), compound files without EncryptedPackage, near-miss names, FILEPASS behind the
     globals' EOF, manifests without encryption-data;
-  * robustness of the pieces: header mutations, byte-order marks in directory names, random
-    record streams.
+  * robustness of the pieces: header mutations, byte-order marks in directory names (no longer
+    sniffed since 2d0895e), damaged containers through the WHOLE model (Cfb.cfb_new of property
+    C13 on the bytes of the file), records shorter than their fixed fields, random record streams.
       impl vs spec -> violation      impl vs model -> disagreement
 open_workbook_auto_from_rs is recorded (distribution auto:*), not judged: it swallows every
 reader's error and answers Error::Msg("Cannot detect file format") for all encrypted inputs.
@@ -26,11 +27,10 @@ import io, json, os, struct, zipfile
 import vlib, pwgen
 
 ASSUMPTIONS = [
-    "xlsx/xlsb: what Cfb::new does between the header and the directory array (DIFAT, FAT, sector chains, mini stream) is property C13's model (Cfb.v); C20's theorems start from the directory chain / the parsed directory array, and the run ties that step on generated containers through the real Cfb::new",
+    "xlsx/xlsb: the compound-file reader is property C13's model Cfb.v (imported, not duplicated); C20's byte-level theorems are compositions with C13_written_names_listed / C13_cfb_new_written, so they hold for the layouts valid_layout admits (no red-black sibling links are written: calamine ignores them)",
     "xls: arms of the globals loop that parse strings or formulas (FORMAT, BoundSheet8, Lbl, ExternSheet, SST) enter the theorems as a function interp; the executable instance answers 'unmodelled' on them (they never return Password: checked by reading, XlsError::Password is constructed only in the FILEPASS arm)",
     "xls: record headers behind FILEPASS are well framed (they stay in clear under XOR obfuscation and RC4/CryptoAPI encryption); a stream cut in the middle of a CONTINUE record right behind FILEPASS gives EoStream instead (outside 'legal position')",
     "ods: the manifest is modelled as the list of quick-xml events (expand_empty_elements, no end-name check); the tokeniser itself is not modelled",
-    "Encoding::decode of a directory name: the UTF-8 branch (name field starting EF BB BF) is modelled by the WHATWG decoder",
 ]
 
 def hx(b):
@@ -45,6 +45,15 @@ class Case:
         self.judge = judge
     def line(self):
         return "\t".join([self.cid, "password", self.kind, self.path] + self.margs)
+    def full(self, limit=40000):
+        """small compound files go through the WHOLE model (Cfb.cfb_new on the bytes of the file,
+        command ooxmlf); big ones through header + directory chain (command ooxml)"""
+        try:
+            if self.kind == "ooxml" and os.path.getsize(self.path) <= limit:
+                self.kind, self.margs = "ooxmlf", []
+        except OSError:
+            pass
+        return self
 
 # ------------------------------------------------------------------ case builders
 def ooxml_margs(data, chain):
@@ -76,9 +85,11 @@ def gen_ooxml_positive(ctx, tmp, n):
         data, chain, desc = pwgen.encrypted_ooxml(rng, **kw)
         cid = "op%d" % i
         path = write(tmp, cid + rng.choice([".xlsx", ".xlsb"]), data)
-        cases.append(Case(cid, "ooxml", path, ooxml_margs(data, chain), "password", desc=desc))
+        c = Case(cid, "ooxml", path, ooxml_margs(data, chain), "password", desc=desc)
+        cases.append(c.full() if i % 4 else c)
         ctx.count("ooxml+:v%d:%s:%s" % (desc["version"], desc["info"],
                                         "mini" if desc["pkg"] < 4096 else "regular"))
+        ctx.count("ooxml+:model=" + ("whole-file" if c.kind == "ooxmlf" else "header+directory-chain"))
     return cases
 
 def gen_ooxml_negative_cfb(ctx, tmp, n):
@@ -95,7 +106,7 @@ def gen_ooxml_negative_cfb(ctx, tmp, n):
         data, chain = pwgen.cfb_build(ents, rng, version=rng.choice([3, 4]))
         cid = "on%d" % i
         cases.append(Case(cid, "ooxml", write(tmp, cid + ".xlsx", data), ooxml_margs(data, chain), "notpassword",
-                          desc={"names": [e.name for e in ents]}))
+                          desc={"names": [e.name for e in ents]}).full())
         ctx.count("ooxml-:cfb-near-miss")
     # name fields with byte-order marks / odd code units: model vs impl (the BOM is sniffed by
     # Encoding::decode, so FF FE + name matches)
@@ -117,8 +128,9 @@ def gen_ooxml_negative_cfb(ctx, tmp, n):
         kf = data.find(key)
         data2 = data[:kf] + fld64 + data[kf + 64:]
         cid = "ob%d" % i
-        cases.append(Case(cid, "ooxml", write(tmp, cid + ".xlsx", data2), ooxml_margs(data2, chain2), None,
-                          desc={"name_field": fld64.hex()}))
+        c = Case(cid, "ooxml", write(tmp, cid + ".xlsx", data2), ooxml_margs(data2, chain2), None,
+                 desc={"name_field": fld64.hex()})
+        cases.append(c.full() if i % 2 else c)
         ctx.count("ooxml:name-field-variants")
     # header mutations: model vs impl on the error class of Cfb::new
     base, chain, _ = pwgen.encrypted_ooxml(rng, version=3, pkg_size=100, extra=0)
@@ -141,14 +153,37 @@ def gen_ooxml_negative_cfb(ctx, tmp, n):
             and struct.unpack_from("<H", d, 32)[0] == 6 and not (struct.unpack_from("<H", d, 30)[0] == 12 and len(d) < 4096)
         if hdr_ok:
             continue
-        cases.append(Case(cid, "ooxml", write(tmp, cid + ".bin", d), ooxml_margs(d, None), "notpassword",
-                          desc={"mutation": j}))
+        c = Case(cid, "ooxml", write(tmp, cid + ".bin", d), ooxml_margs(d, None), "notpassword",
+                 desc={"mutation": j})
+        cases.append(c.full() if j % 2 else c)
         ctx.count("ooxml-:header-rejected")
+    # damaged containers through the whole model: byte flips in header / FAT / directory,
+    # truncations, sector ids out of range — outcome class and directory names must agree
+    # (the totality theorem C20_no_panic_ooxml_check says the model never answers panic)
+    for j in range(n * 4):
+        d0, _, _ = pwgen.encrypted_ooxml(rng, pkg_size=rng.choice([0, 100, 5000]), extra=0,
+                                         header_difat=rng.choice([109, 109, 1]))
+        b = bytearray(d0)
+        mode = rng.randrange(4)
+        if mode == 0:
+            for _ in range(rng.randrange(1, 4)):
+                b[rng.randrange(8, 512)] = rng.getrandbits(8)
+        elif mode == 1:
+            for _ in range(rng.randrange(1, 6)):
+                b[rng.randrange(512, len(b))] = rng.choice([0, 0xFF, 0xFE, rng.getrandbits(8)])
+        elif mode == 2:
+            b = b[:rng.randrange(512, len(b))]
+        else:
+            off = rng.randrange(512, len(b) - 4) & ~3
+            struct.pack_into("<I", b, off, rng.choice([0, 1, 0xFFFFFFFE, 0xFFFFFFFF, 0xFFFFFFFA, 0x7FFFFFFF, rng.randrange(64)]))
+        cid = "od%d" % j
+        cases.append(Case(cid, "ooxmlf", write(tmp, cid + ".bin", bytes(b)), [], None, desc={"damage": mode}))
+        ctx.count("ooxml:damaged-container")
     return cases
 
 def zip_case(ctx, tmp, cid, data, ext, tag):
     ctx.count("ooxml-:" + tag)
-    return Case(cid, "ooxml", write(tmp, cid + ext, data), ooxml_margs(data, None), "notpassword", desc={"gen": tag})
+    return Case(cid, "ooxml", write(tmp, cid + ext, data), ooxml_margs(data, None), "notpassword", desc={"gen": tag}).full()
 
 def gen_ooxml_negative_zip(ctx, tmp, n):
     rng, cases = ctx.rng, []
@@ -190,7 +225,7 @@ def xls_case(ctx, tmp, cid, data, stream, expect, tag, valid=None, desc=None):
 
 def gen_xls_positive(ctx, tmp, n):
     rng, cases = ctx.rng, []
-    fixed = [dict(kind=k, how=h, stream_name=s) for k in ("xor", "rc4", "cryptoapi", "empty", "short", "garbage")
+    fixed = [dict(kind=k, how=h, stream_name=s) for k in ("xor", "rc4", "cryptoapi", "biff5", "empty", "short", "garbage")
              for h in ("direct", "writeprot", "many") for s in ("Workbook", "Book")]
     for i in range(n):
         kw = fixed[i] if i < len(fixed) else {}
@@ -205,6 +240,28 @@ def gen_xls_positive(ctx, tmp, n):
         opts = {"stream_name": rng.choice(["Workbook", "Book"]), "cfb": {"version": rng.choice([3, 4])}}
         stream, _ = xlsgen.workbook_stream(wb, opts, rng)
         cases.append(xls_case(ctx, tmp, "xq%d" % i, xlsgen.write_xls(wb, opts, rng), stream, "password", "xls+:xlsgen"))
+    return cases
+
+def gen_xls_short(ctx, tmp):
+    """records shorter than their fixed fields in the globals (errors since the hardening, panics
+    before): model vs impl; and the same in front of a FILEPASS record (the error comes first)"""
+    rng, cases = ctx.rng, []
+    k = 0
+    for t in (0x0042, 0x0022, 0x0809, 0x00E0):
+        for ln in (0, 1, 2, 3, 4):
+            for tail in ("eof", "filepass"):
+                if t == 0x0809:
+                    s = pwgen.rec(t, pwgen.rnd(rng, ln))
+                else:
+                    body = struct.pack("<H", 1200)[:ln] if t == 0x0042 and ln >= 2 else pwgen.rnd(rng, ln)
+                    if t == 0x0042 and ln > 2:
+                        body = struct.pack("<H", 1252) + pwgen.rnd(rng, ln - 2)
+                    s = pwgen.bof(0x0005) + pwgen.rec(t, body)
+                s += pwgen.rec(0x002F, pwgen.filepass_body(rng, "xor")) if tail == "filepass" else b""
+                s += pwgen.rec(0x000A) + pwgen.bof(0x0010) + pwgen.rec(0x000A)
+                data, _ = pwgen.cfb_build([pwgen.Entry("Workbook", 2, s)], rng, version=3)
+                c = xls_case(ctx, tmp, "xh%d" % k, data, s, None, "xls:short-record:%#06x" % t)
+                cases.append(c); k += 1
     return cases
 
 def gen_xls_negative(ctx, tmp, n):
@@ -379,7 +436,7 @@ def agree(kind, impl, model):
     """is the implementation's answer the one the model predicts?"""
     if impl is None or model is None:
         return False
-    if kind == "ooxml":
+    if kind in ("ooxml", "ooxmlf"):
         return impl == model
     i, m = impl.split("=", 1)[1], model.split("=", 1)[1]
     if kind == "xls":
@@ -458,6 +515,7 @@ def build_all(ctx, tmp, k):
     cases += gen_ooxml_negative_zip(ctx, tmp, ctx.scale(15, 150) * k)
     cases += gen_xls_positive(ctx, tmp, ctx.scale(200, 3000) * k)
     cases += gen_xls_negative(ctx, tmp, ctx.scale(15, 150) * k)
+    cases += gen_xls_short(ctx, tmp)
     cases += gen_ods(ctx, tmp, ctx.scale(120, 2000) * k)
     return cases
 
